@@ -91,7 +91,26 @@ FIRST.update({"C01-m": "relocated known defect + analysis error (C18.R2: Random.
               "C13-m": "analysis error (vars(self))", "C13-n": "false alarm (C13.R3: list repetition unmodelled - forks taken as behaviour) + analysis errors (id(), partial mapper)",
               "C17-m": "analysis error (np.fromiter / flatnonzero)", "C17-n": "analysis error (callee looked up in a class-level table)",
               "C18-m": "silent", "C18-n": "false alarm (C18.R3: 'del lst[-1]' was ignored by the interpreter) + relocated known defect"})
+# sixth round (the other ten properties, same brief): /tmp/benign6_out/CNN/{a,b} are stored as CNN-o, -p
+FIRST.update({"C03-o": "analysis errors (grammar analysis with a defaultdict subclass and a module-level walker)", "C03-p": "silent",
+              "C05-o": "silent", "C05-p": "false alarm (C10.R1: a construction helper taken as a bound-method value) + analysis errors",
+              "C11-o": "false alarm (C01.R2: an iterator kept on a work-list object) + analysis errors", "C11-p": "analysis errors (labeller object; C11.R3 floor)",
+              "C14-o": "analysis errors (search() as a template method in the base class: C12.R3, C14.R1, C15.R3 floors)", "C14-p": "analysis error (C14.R3 floor: budgets as dataclasses with a template is_done)",
+              "C16-o": "analysis errors (C15.R2: method of an annotated helper object; C16.R1: helper class not instantiated)", "C16-p": "analysis error (C15.R2p: boundaries paired with itertools.pairwise into NamedTuples)",
+              "C19-o": "false alarm (C19.R4: a decorator factory - the result of a call was not called)", "C19-p": "relocated known defect + analysis error (C19.R5: per-call method object)",
+              "C20-o": "analysis error (csv.DictWriter: C20 anchor)", "C20-p": "silent",
+              "C08-o": "analysis error (C12.R3: result read through a table of callables)", "C08-p": "relocated known defect + analysis errors"})
 os.makedirs(DST, exist_ok=True)
+for p in sorted(glob.glob("/tmp/benign6_out/C*/[ab]/patch.diff")):
+    src = os.path.dirname(p)
+    name = p.split("/")[3] + "-" + {"a": "o", "b": "p"}[p.split("/")[4]]
+    d = os.path.join(DST, name)
+    if os.path.exists(os.path.join(d, "patch.diff")):
+        continue
+    os.makedirs(d, exist_ok=True)
+    for fn in ("patch.diff", "notes.md", "check.py"):
+        if os.path.exists(os.path.join(src, fn)):
+            shutil.copy(os.path.join(src, fn), os.path.join(d, fn))
 for p in sorted(glob.glob("/tmp/benign5_out/C*/[ab]/patch.diff")):
     src = os.path.dirname(p)
     name = p.split("/")[3] + "-" + {"a": "m", "b": "n"}[p.split("/")[4]]
